@@ -86,6 +86,18 @@ func iface(v reflect.Value) interface{} {
 	return v.Interface()
 }
 
+// Len is a scheduling point too: code that looks at a channel's fill level and then acts on it has
+// a window between the look and the act.
+func (v Value) Len() int {
+	n := v.Value.Len()
+	if s := Sched; s != nil && v.Value.IsValid() && v.Value.Kind() == reflect.Chan {
+		// the scheduler gets control after the look: what the caller does next is based on n
+		id, c := chanID(v.Value)
+		s.BeforeOp(&Op{Kind: "len", Chan: id, Cap: c, Raw: v.Value})
+	}
+	return n
+}
+
 func (v Value) Send(x Value) {
 	s := Sched
 	if s == nil {
